@@ -1,6 +1,6 @@
 SPECIFICATION Spec
 CONSTANTS
   Deviations = {}
-  Classes = {"plain", "param/alias+default"}
+  Classes = {"plain", "param/alias+default", "error/api-level-user-type", "views/recursive-result-type"}
 INVARIANTS AcceptedNeverFailsLater RejectedStops StagesInOrder
 CHECK_DEADLOCK FALSE
